@@ -142,3 +142,61 @@ package json
 //@   ensures result1 == nil ==> result0 != nil && fresh(result0) && normNumber(*result0) && result0.exp == precLen(b)
 //@   ensures result1 == nil ==> (forall a Number {cmpExact(a, *result0)} :: cmpExact(a, *result0) == parsedCmp(a, b))
 //@   ensures result1 != nil ==> tag(result1) != typetag(errors.DocumentError)
+
+// ---- literal kinds (C01: the JSON-kind side of the compatibility matrix) ----
+
+//@ func Guess(b)
+//@   props C01 C02
+//@   nopanic
+//@   ensures fresh(result) && result.number == nil && result.bytes == b
+
+//@ func (*GuessData).Number()
+//@   props C01 C02
+//@   requires gdWF(g)
+//@   nopanic
+//@   modifies g.number
+//@   ensures gdWF(g) && (result1 == nil) == parseOK(g.bytes)
+//@   ensures result1 == nil ==> result0 == g.number && result0 != nil
+//@   ensures result1 == nil && old(g.number) != nil ==> result0 == old(g.number)
+
+//@ func (*GuessData).IsInteger()
+//@   props C01 C02
+//@   requires gdWF(g)
+//@   nopanic
+//@   modifies g.number
+//@   ensures gdWF(g) && result == numIsInt(g.bytes)
+//@   loop 0 invariant dot == (exists j {g.bytes[j]} :: 0 <= j && j <= rangeindex && g.bytes[j] == '.')
+//@   loop 0 invariant exp == (exists j {g.bytes[j]} :: 0 <= j && j <= rangeindex && (g.bytes[j] == 'e' || g.bytes[j] == 'E'))
+//@   loop 0 decreases len(g.bytes) - rangeindex
+
+//@ func (*GuessData).IsFloat()
+//@   props C01 C02
+//@   requires gdWF(g)
+//@   nopanic
+//@   modifies g.number
+//@   ensures gdWF(g) && result == numIsFloat(g.bytes)
+//@   loop 0 invariant dot == (exists j {g.bytes[j]} :: 0 <= j && j <= rangeindex && g.bytes[j] == '.')
+//@   loop 0 invariant exp == (exists j {g.bytes[j]} :: 0 <= j && j <= rangeindex && (g.bytes[j] == 'e' || g.bytes[j] == 'E'))
+//@   loop 0 decreases len(g.bytes) - rangeindex
+
+//@ func (GuessData).LiteralJsonType()
+//@   props C01 C02
+//@   requires g.number == nil
+//@   maypanic
+//@   ensures panics <==> litKind(g.bytes) == 0
+//@   ensures normal ==> result == litKind(g.bytes)
+
+//@ func (GuessData).JsonType()
+//@   props C01 C16
+//@   requires g.number == nil
+//@   maypanic
+//@   ensures normal ==> result == (beq(g.bytes, "{") ? TypeObject : (beq(g.bytes, "[") ? TypeArray : litKind(g.bytes)))
+//@   ensures panics <==> !beq(g.bytes, "{") && !beq(g.bytes, "[") && litKind(g.bytes) == 0
+
+//@ func (Type).String()
+//@   props C07
+//@   nopanic
+//@ func (Type).IsLiteralType()
+//@   props C01
+//@   nopanic
+//@   ensures result == (t == TypeString || t == TypeBoolean || t == TypeInteger || t == TypeFloat || t == TypeNull || t == TypeMixed)
